@@ -180,6 +180,23 @@ def r5_r6_connection(ck, cx, cls):
                                                                   for n in ast.walk(cm.node)), detail='connected-flag-not-set', loc=cx.floc(cm))
 
 
+def r5_registry_only_emptied_by_pickup(ck, cx, cls):
+    """pending deferreds leave the registry only by getTransaction (reply, or the errback loop of connectionLost): a reset /
+    clear / delTransaction from a protocol method drops them without firing"""
+    n = 0
+    for k in [cls] + cx.idx.subclasses(cls):
+        for fn in k.methods.values():
+            for c in ast.walk(fn.node):
+                if isinstance(c, ast.Call) and isinstance(c.func, ast.Attribute) and U(c.func.value) in ('self.transaction', 'self.transaction.transactions'):
+                    n += 1
+                    ck.ob('R5', fn.qn, 'protocol touches the registry only through getNextTID / addTransaction / getTransaction / iteration',
+                          c.func.attr in ('getNextTID', 'addTransaction', 'getTransaction', '__iter__'),
+                          detail='registry-emptied-by %s' % c.func.attr, loc=cx.floc(fn, c),
+                          message='%s calls transaction.%s(): requests still pending at that moment are forgotten, their deferreds never fire '
+                                  '(connectionLost has nothing left to errback)' % (fn.qn, c.func.attr))
+    ck.floor('R5', n, 3, 'registry calls in the Twisted client protocol')
+
+
 def run(ck, tier):
     cx = Ctx()
     ck.rule('R1', 'execute: id from getNextTID assigned before buildPacket; deferred registered under that id')
@@ -197,6 +214,7 @@ def run(ck, tier):
     r3_r4_handle(ck, cx, cx.idx.cls(UDP))
     ck.guard(r4_managers, ck, cx)
     ck.guard(r5_r6_connection, ck, cx, cls)
+    ck.guard(r5_registry_only_emptied_by_pickup, ck, cx, cls)
     # which manager the protocol uses
     init = cx.method(cls, '__init__')
     sel = {}
